@@ -1,6 +1,7 @@
 (* Model side of the template probe (C20): same case lines, same output lines.
-   Trusted glue: hex -> Coq string, construction of the data value in the field order of the Go structs
-   (checked against the regenerated schema with Model.wt on every case: "ILLTYPED" otherwise). *)
+   Trusted glue: hex -> Coq string, construction of the data value with Model.build_struct against the regenerated
+   schema (fields by name; declaration order, integer types and further fields come from the schema), checked with
+   Model.wt on every case: "ILLTYPED" otherwise. *)
 open Vutil
 
 let ascii_of_code (n : int) : Model.ascii =
@@ -14,26 +15,28 @@ let unhex (s : string) : string =
   let s = if String.length s > 0 && s.[0] = 'x' then String.sub s 1 (String.length s - 1) else s in
   String.init (String.length s / 2) (fun i -> Char.chr (int_of_string ("0x" ^ String.sub s (2 * i) 2)))
 
-let next_str t : Model.value = Model.VStr (cs (unhex (next t)))
+let next_str t : Model.kval = Model.KStr (cs (unhex (next t)))
 
 let tint n = Model.TInt (cs n)
 let tnamed n = Model.TNamed (cs n)
-let vint n z = Model.VInt (tint n, z)
 let fld n v = (cs n, v)
+let kint z = Model.KInt z
+let kval v = Model.KVal v
+let strct tn fields = Model.build_struct Model.burrow_schema (cs tn) fields
 
-let next_float t : Model.value =
-  let s = next t in Model.VFloat (s <> "nan")
+let next_float t : Model.kval =
+  let s = next t in Model.KFloat (s <> "nan")
 
 let next_offset t : Model.value =
   if next t = "nil" then Model.VNil (tnamed "ConsumerOffset")
   else begin
     let off = next_z t in let order = next_z t in let ts = next_z t in let obs = next_z t in
     let lag = next t in
-    Model.VPtr (Model.VStruct (cs "ConsumerOffset",
-      [ fld "Offset" (vint "int64" off); fld "Order" (vint "int64" order); fld "Timestamp" (vint "int64" ts);
-        fld "ObservedTimestamp" (vint "int64" obs);
-        fld "Lag" (if lag = "n" then Model.VNil (tnamed "Lag")
-                   else Model.VPtr (Model.VStruct (cs "Lag", [ fld "Value" (vint "uint64" (zs lag)) ]))) ]))
+    Model.VPtr (strct "ConsumerOffset"
+      [ fld "Offset" (kint off); fld "Order" (kint order); fld "Timestamp" (kint ts);
+        fld "ObservedTimestamp" (kint obs);
+        fld "Lag" (kval (if lag = "n" then Model.VNil (tnamed "Lag")
+                         else Model.VPtr (strct "Lag" [ fld "Value" (kint (zs lag)) ]))) ])
   end
 
 let next_partition t : Model.value =
@@ -43,10 +46,10 @@ let next_partition t : Model.value =
     let status = next_z t in
     let st = next_offset t in let en = next_offset t in
     let lag = next_z t in let complete = next_float t in
-    Model.VPtr (Model.VStruct (cs "PartitionStatus",
-      [ fld "Topic" topic; fld "Partition" (vint "int32" part); fld "Owner" owner; fld "ClientID" client;
-        fld "Status" (Model.VInt (tnamed "StatusConstant", status));
-        fld "Start" st; fld "End" en; fld "CurrentLag" (vint "uint64" lag); fld "Complete" complete ]))
+    Model.VPtr (strct "PartitionStatus"
+      [ fld "Topic" topic; fld "Partition" (kint part); fld "Owner" owner; fld "ClientID" client;
+        fld "Status" (kint status);
+        fld "Start" (kval st); fld "End" (kval en); fld "CurrentLag" (kint lag); fld "Complete" complete ])
   end
 
 let rec assoc_tmpl (name : Model.ascii list) l =
@@ -61,7 +64,7 @@ let render t : string =
   let _start = next_z t in
   let nex = next_int t in
   let rec pairs i = if i <= 0 then [] else
-      let k = cs (unhex (next t)) in let v = next_str t in (k, v) :: pairs (i - 1) in
+      let k = cs (unhex (next t)) in let v = Model.VStr (cs (unhex (next t))) in (k, v) :: pairs (i - 1) in
   let extras = pairs nex in
   (* a Go map holds one value per key: the last one written *)
   let extras = List.fold_left (fun acc (k, v) -> (k, v) :: List.filter (fun (k', _) -> k' <> k) acc) [] extras in
@@ -73,14 +76,14 @@ let render t : string =
   let np = next_int t in
   let rec parts i = if i <= 0 then [] else let p = next_partition t in p :: parts (i - 1) in
   let partitions = parts np in
-  let result = Model.VStruct (cs "ConsumerGroupStatus",
-    [ fld "Cluster" cluster; fld "Group" group; fld "Status" (Model.VInt (tnamed "StatusConstant", status));
+  let result = strct "ConsumerGroupStatus"
+    [ fld "Cluster" cluster; fld "Group" group; fld "Status" (kint status);
       fld "Complete" complete;
-      fld "Partitions" (Model.VSlice (Model.TPtr (tnamed "PartitionStatus"), partitions));
-      fld "TotalPartitions" (vint "int" totalparts); fld "Maxlag" maxlag; fld "TotalLag" (vint "uint64" totallag) ]) in
-  let data = Model.VStruct (cs "$data",
-    [ fld "Cluster" cluster; fld "Group" group; fld "ID" id; fld "Start" (Model.VOpaque (cs "time.Time"));
-      fld "Extras" (Model.VMap (Model.TStr, extras)); fld "Result" result ]) in
+      fld "Partitions" (kval (Model.VSlice (Model.TPtr (tnamed "PartitionStatus"), partitions)));
+      fld "TotalPartitions" (kint totalparts); fld "Maxlag" (kval maxlag); fld "TotalLag" (kint totallag) ] in
+  let data = Model.build_struct Model.burrow_schema (Model.sch_root Model.burrow_schema)
+    [ fld "Cluster" cluster; fld "Group" group; fld "ID" id; fld "Start" (kval (Model.VOpaque (cs "time.Time")));
+      fld "Extras" (kval (Model.VMap (Model.TStr, extras))); fld "Result" (kval result) ] in
   if not (Model.wt Model.burrow_schema data) then "ILLTYPED"
   else
     match assoc_tmpl (cs name) Model.all_templates with
